@@ -1,5 +1,6 @@
 import Tahoe.GridManager.Lemmas
 import Tahoe.StorageClient.Upload
+import Tahoe.StorageClient.Lemmas
 /-!
 C33 — Grid-manager certificates grant permission only when valid.
 
@@ -16,6 +17,7 @@ Ed25519 enters as the parameter `verify` and, where needed, the explicit hypothe
 | a server is permitted exactly when at least one of its certificates is signed by a configured key, names that server's public key, and has not expired at the current time | `permitted_iff` (iff, for every time; under `SignedWellFormed`), `expired_at_instant_not_permitted` (strict at the instant of expiry), `upload_verdict_iff` (the same for `upload_permitted()` of an announced server as the broker uses it: a function of certificates, keys and the current time, no call history) |
 | with no configured keys every server is permitted | `no_keys_all_permitted`, `upload_verdict_no_keys` |
 | tampered, expired, wrong-key or other-server certificates never grant permission | `granted_only_if` (no assumption at all on what was signed), `tampered_or_foreign_never_grants` (under `Unforgeable`; the expiry compared is that of the *same* certificate that names the server — seed C33-a; the signature must be on exactly the presented bytes — seed C33-b) |
+| (broker path) an announcement entry that cannot be decoded into a certificate grants nothing and never switches the key check off | `undecodable_entry_never_grants` (seed C33-d); the code refuses the whole announcement (`accept`), compared through the `offer` lines |
 | quantifier: random key / certificate sets evaluated at random times including the moment of expiry | all theorems are for arbitrary lists and integer times |
 
 Assumed, not proved: Ed25519 (`Unforgeable`, explicit hypothesis with the instance
@@ -224,6 +226,61 @@ theorem upload_verdict_iff {PK Sig Msg : Type} (verify : PK → Sig → Msg → 
   unfold verdict
   rw [hf]
   rcases h1 with h | h <;> simp [h]
+
+/-- An undecodable certificate entry grants nothing: every server offered for upload at `now`
+    (keys configured) comes from an announcement all of whose entries decoded, and one of those
+    decoded certificates verifies under a configured key, names that server and expires after
+    `now`.  In particular an announcement with an undecodable entry yields no upload candidate at
+    all, and the configured keys are always consulted. -/
+theorem undecodable_entry_never_grants {PK Sig Msg : Type} (verify : PK → Sig → Msg → Bool)
+    (parse : Msg → Parsed Nat) (keys : List PK) (hk : keys ≠ []) (preferred : List Nat) (now : Time)
+    (l : List (Announcement Sig Msg)) (s : Server)
+    (hs : s ∈ serversAtA verify parse keys preferred true now l) :
+    ∃ a ∈ l, a.id = s.id ∧ (∀ e ∈ a.entries, e ≠ none) ∧
+      ∃ c, some c ∈ a.entries ∧ ∃ k ∈ keys, verify k c.signature c.certificate = true ∧
+        ∃ t, parse c.certificate = .dict (.time t) (.ascii a.id) ∧ expiresAfter t now = .ok true := by
+  unfold serversAtA serversAt at hs
+  have hmem := (perm_getServersForPsi preferred true _).subset hs
+  simp only [Bool.not_true, Bool.false_or, List.mem_filter, Bool.and_eq_true] at hmem
+  obtain ⟨hin, _, hperm⟩ := hmem
+  obtain ⟨a', ha', rfl⟩ := List.mem_map.mp hin
+  obtain ⟨a, ha, hacc⟩ := List.mem_filterMap.mp ha'
+  unfold accept at hacc
+  split at hacc
+  · rename_i hall
+    simp only [Option.some.injEq] at hacc
+    subst hacc
+    refine ⟨a, ha, rfl, ?_, ?_⟩
+    · intro e he hnone
+      have := List.all_eq_true.mp hall e he
+      simp [hnone] at this
+    · simp only [toServer, verdict] at hperm
+      cases hv : verifier verify parse keys (a.entries.filterMap id) a.id with
+      | error e => simp [hv] at hperm
+      | ok f =>
+        cases hf : f now with
+        | error e => simp [hv, hf] at hperm
+        | ok b =>
+          cases b with
+          | false => simp [hv, hf] at hperm
+          | true =>
+            obtain ⟨c, hc, k, hk', hvk, t, hp, he⟩ := granted_only_if verify parse keys _ a.id hk f hv now hf
+            refine ⟨c, ?_, k, hk', hvk, t, hp, he⟩
+            obtain ⟨e, he', hid⟩ := List.mem_filterMap.mp hc
+            simp only [id] at hid
+            rw [← hid]; exact he'
+  · cases hacc
+
+/-- key 1 configured; server 7's announcement has an undecodable entry next to a certificate that
+    would be valid, server 8's has an undecodable entry only, server 9's is clean: only 9 is offered;
+    with the entries of 7 all decodable it is offered too -/
+example :
+    let parse : Nat → Parsed Nat := fun m => .dict (.time (.aware 500)) (.ascii m)
+    let c : Nat → Option (SignedCert SymSig Nat) := fun m => some ⟨m, .signed 1 m⟩
+    (serversAtA symVerify parse [1] [] true (.aware 100)
+      [⟨7, true, [none, c 7], 1⟩, ⟨8, true, [none], 2⟩, ⟨9, true, [c 9], 3⟩]).map (·.id) = [9] ∧
+    (serversAtA symVerify parse [1] [] true (.aware 100)
+      [⟨7, true, [c 7], 1⟩, ⟨9, true, [c 9], 3⟩]).map (·.id) = [7, 9] := by decide
 
 /-- with no configured keys the verdict is `true` whatever was announced -/
 theorem upload_verdict_no_keys {PK Sig Msg : Type} (verify : PK → Sig → Msg → Bool) (parse : Msg → Parsed Nat)
